@@ -251,36 +251,6 @@ fn list_usize(m: &BTreeMap<String, String>, k: &str, d: &[usize]) -> Vec<usize> 
 }
 
 /// First LSN owned by the active writer epoch recorded in a ledger file (None if no active epoch).
-fn ledger_active_start(bytes: &[u8]) -> Option<u64> {
-    let p = bytes.get(16..bytes.len().checked_sub(32)?)?;
-    let mut o = 2usize;
-    let rd_u64 = |p: &[u8], o: usize| -> Option<u64> {
-        let mut b = [0u8; 8];
-        b.copy_from_slice(p.get(o..o + 8)?);
-        Some(u64::from_le_bytes(b))
-    };
-    let opt = |p: &[u8], o: usize, n: usize| -> Option<usize> {
-        match *p.get(o)? {
-            0 => Some(o + 1),
-            1 => Some(o + 1 + n),
-            _ => None,
-        }
-    };
-    let closed = rd_u64(p, o)? as usize;
-    o += 8;
-    for _ in 0..closed {
-        o += 128 + 8;
-        o = opt(p, o, 32)?;
-        o = opt(p, o, 32)?;
-        o += 32;
-        o = opt(p, o, 8)?;
-        o = opt(p, o, 32)?;
-    }
-    if *p.get(o)? != 1 {
-        return None;
-    }
-    rd_u64(p, o + 1 + 128)
-}
 
 // ------------------------------------------------------------------------------------------------
 // store-level workload: real FilesystemWalStore + real transaction builders
@@ -354,12 +324,13 @@ impl StoreRun {
             acked.push(tx_string(&t.commit, t.frames.len()));
         }
         let ep = store.acquire_fresh_writer_epoch(Lsn::from_raw(cur.next_lsn)).map_err(|e| store_class(&e))?;
-        let epoch_skip = if !report.transactions.is_empty() && ep.started_at_lsn.as_u64() > cur.next_lsn {
-            Some((cur.next_lsn, ep.started_at_lsn.as_u64()))
-        } else {
-            None
-        };
-        cur.next_lsn = ep.started_at_lsn.as_u64();
+        // the store does not tie frame LSNs to the epoch start: with committed history this writer keeps
+        // appending at the first free LSN (what the host does with the same information is checked in
+        // mode=host)
+        let epoch_skip = None;
+        if report.transactions.is_empty() {
+            cur.next_lsn = ep.started_at_lsn.as_u64();
+        }
         let mut s = StoreRun { root, store, epoch: ep.epoch_id, cur, snaps: Vec::new(), acked, epoch_skip };
         s.snap();
         Ok(s)
@@ -826,16 +797,39 @@ fn open_host(root: &Path) -> Result<TrustedRuntimeHost, String> {
     Ok(host)
 }
 
-/// Did the epoch acquired by the last open start beyond the next free LSN of the committed log?
-fn host_epoch_skip(root: &Path) -> Option<(u64, u64)> {
-    let led = fs::read(ledger_path(root)).ok()?;
-    let start = ledger_active_start(&led)?;
-    let rep = recover_filesystem_store(root, RecoveryAccessMode::ReadOnly).ok()?;
-    let next = rep.last_committed_lsn()?.as_u64() + 1;
-    if start > next {
-        Some((next, start))
-    } else {
-        None
+/// An LSN hole between two consecutive frames of the segment in `root`: (lsn before, lsn after,
+/// whether the writer epoch changes across the hole).  Frame payloads start with version(2)
+/// epoch(32) segment(8) lsn(8).
+fn lsn_hole(root: &Path) -> Option<(u64, u64, bool)> {
+    let seg = fs::read(seg_path(root)).ok()?;
+    let mut prev: Option<(u64, Vec<u8>)> = None;
+    for (k, rec) in records_of(&seg) {
+        if k != 1 || rec.len() < 17 + 50 {
+            continue;
+        }
+        let p = &rec[17..];
+        let mut l = [0u8; 8];
+        l.copy_from_slice(&p[42..50]);
+        let lsn = u64::from_le_bytes(l);
+        let ep = p[2..34].to_vec();
+        if let Some((pl, pe)) = &prev {
+            if lsn != pl + 1 {
+                return Some((*pl, lsn, *pe != ep));
+            }
+        }
+        prev = Some((lsn, ep));
+    }
+    None
+}
+/// Names the root cause when a recovery failed with LsnContinuityMismatch.
+fn classify_lsn(fails: &mut Vec<String>, root: &Path, what: &str) {
+    if !what.contains("val.lsn") {
+        return;
+    }
+    match lsn_hole(root) {
+        Some((a, b, true)) => fails.push(format!("wal:idle-writer-epoch-skips-lsn[hole={a}->{b},acknowledged-log-unrecoverable]")),
+        Some((a, b, false)) => fails.push(format!("wal:lsn-hole-inside-epoch[hole={a}->{b}]")),
+        None => {}
     }
 }
 
@@ -949,9 +943,12 @@ impl HostRun {
     }
     fn reopen(&mut self) -> Result<(), String> {
         self.host = None;
-        self.host = Some(open_host(&self.root)?);
-        if let Some((a, b)) = host_epoch_skip(&self.root) {
-            self.fails.push(format!("wal:idle-writer-epoch-skips-lsn[next={a},epoch_start={b}]"));
+        match open_host(&self.root) {
+            Ok(h) => self.host = Some(h),
+            Err(e) => {
+                classify_lsn(&mut self.fails, &self.root, &e);
+                return Err(e);
+            }
         }
         Ok(())
     }
@@ -1056,6 +1053,8 @@ fn parse_host(m: &BTreeMap<String, String>) -> (Vec<Op>, PathBuf, Result<HostRun
     if let Ok(r) = run.as_mut() {
         for op in &ops {
             if let Err(e) = r.apply(op) {
+                let root2 = r.root.clone();
+                classify_lsn(&mut r.fails, &root2, &e);
                 r.fails.push(format!("wal:host-op-failed[{op:?},{e}]"));
                 break;
             }
@@ -1109,15 +1108,12 @@ fn run_host(m: &BTreeMap<String, String>) -> String {
             let mut host = match open_host(&dir) {
                 Ok(h) => h,
                 Err(e) => {
+                    classify_lsn(&mut fails, &dir, &e);
                     fails.push(format!("wal:host-reopen-after-crash-failed[k={k},{e}]"));
                     continue;
                 }
             };
             reopened += 1;
-            let skip = host_epoch_skip(&dir);
-            if let Some((a, b)) = skip {
-                fails.push(format!("wal:idle-writer-epoch-skips-lsn[k={k},next={a},epoch_start={b}]"));
-            }
             match observe(&mut host, &all_ids) {
                 Ok((got, _)) => {
                     for (i, id) in &snaps[j].3 {
@@ -1151,7 +1147,10 @@ fn run_host(m: &BTreeMap<String, String>) -> String {
                     }
                     Err(e) => fails.push(format!("wal:second-recovery-observe-failed[k={k},{e}]")),
                 },
-                Err(e) => fails.push(format!("wal:second-recovery-failed[k={k},{e}]")),
+                Err(e) => {
+                    classify_lsn(&mut fails, &dir, &e);
+                    fails.push(format!("wal:second-recovery-failed[k={k},{e}]"))
+                }
             }
             // continue (on a fresh copy, one recovery only): retry every submission, finish the workload
             let do_cont = match cont {
@@ -1159,7 +1158,7 @@ fn run_host(m: &BTreeMap<String, String>) -> String {
                 "all" => true,
                 _ => near,
             };
-            if !do_cont || skip.is_some() {
+            if !do_cont {
                 continue;
             }
             continued += 1;
@@ -1174,6 +1173,7 @@ fn run_host(m: &BTreeMap<String, String>) -> String {
             let mut ok = true;
             for op in ops.iter().filter(|o| !matches!(o, Op::Fault(_) | Op::Kill(_) | Op::Reopen)) {
                 if let Err(e) = run2.apply(op) {
+                    classify_lsn(&mut fails, &dir2, &e);
                     fails.push(format!("wal:continue-op-failed[k={k},{op:?},{e}]"));
                     ok = false;
                     break;
@@ -1206,6 +1206,7 @@ fn run_host(m: &BTreeMap<String, String>) -> String {
             fails.extend(run2.fails.drain(..));
             run2.host = None;
             if let Err(e) = recover_filesystem_store(&dir2, RecoveryAccessMode::ReadOnly) {
+                classify_lsn(&mut fails, &dir2, &rec_class(&e));
                 fails.push(format!("wal:continued-log-unrecoverable[k={k},{}]", rec_class(&e)));
             }
         }
@@ -1220,7 +1221,10 @@ fn run_host(m: &BTreeMap<String, String>) -> String {
             }
             Err(e) => fails.push(format!("wal:final-recovery-observe-failed[{e}]")),
         },
-        (Err(e), _) => fails.push(format!("wal:final-recovery-failed[{e}]")),
+        (Err(e), _) => {
+            classify_lsn(&mut fails, &root, &e);
+            fails.push(format!("wal:final-recovery-failed[{e}]"))
+        }
         _ => {}
     }
     let _ = fs::remove_dir_all(&dir);
@@ -1731,7 +1735,7 @@ fn run_hostedit(m: &BTreeMap<String, String>) -> String {
     )
 }
 
-fn main() {
+pub fn main() {
     for (idx, line) in read_cases().into_iter().enumerate() {
         let m = kv(&line);
         let mode = m.get("mode").cloned().unwrap_or_default();
